@@ -531,6 +531,10 @@ def getenc_cases(draw):
 def _gen_tounicode(rnd, enc_texts):
     """{code: target}: runs with consecutive targets (so that bfrange forms occur), singles, agreeing entries."""
     m = {}
+    if rnd.random() < 0.08:
+        # one range over all 256 codes, <00> <FF> <xx00>: 256 members, the last one is code 255
+        t0 = rnd.choice([0x4E00, 0x100, 0x3000, 0xE000, 0xAC00])
+        return {c: chr(t0 + c) for c in range(256)}
     for _ in range(rnd.choice([0, 1, 1, 2, 3, 5])):
         lo = rnd.randrange(256)
         n = rnd.choice([1, 2, 3, 5, 10, 26, 40, 100])
